@@ -44,6 +44,7 @@ func checkC06(w *World, r *Result) {
 	}
 	checkDartEnumAndImplements(w, r)
 	declIDRule(w, r, "generator/dart")
+	runTPLBalance(w, r, "generator/dart", 2)
 	tplBalanceFor(w, r, allTemplateFuncs(w, "generator/dart"))
 }
 
